@@ -146,6 +146,13 @@ func engCodecRT(seed int64, tier string, _ []string, out *sx.Out) {
 		}
 	}
 
+	// (ii') every special code point / ill-formed sequence in every string-typed field
+	for _, v := range []byte{4, 5} {
+		for _, pk := range specialStringPackets(v, true) {
+			out.Case(rtCase(pk))
+		}
+	}
+
 	// (iii) generated packets
 	n := 20000
 	if thorough {
